@@ -127,6 +127,8 @@ def sh(cmd, cwd=None, env=None, timeout=None, capture=True):
     e.setdefault('CARGO_TERM_COLOR', 'never')
     if env:
         e.update(env)
+    if timeout is not None:
+        timeout = min(timeout, 1_000_000)    # poll() takes milliseconds in a C int
     try:
         p = subprocess.run(cmd, cwd=cwd, env=e, timeout=timeout, stdout=subprocess.PIPE if capture else None,
                            stderr=subprocess.STDOUT if capture else None, text=True, shell=isinstance(cmd, str))
